@@ -74,6 +74,13 @@ CHECKS["C37"] = ("exploration", "interoperability matrix monitor: real client ag
     "Each cell starts a real server enabling only that configuration, discovers and selects the advertised endpoint with a real client, connects, activates with an anonymous or username token, writes and reads back a scalar and a 150 kB ByteString. Thorough runs the complete finite matrix (141 cells).",
     "committed self-signed certificates; quick tier runs the 2048-bit column only", "3/C37")
 
+CHECKS["C23"] = ("exploration", "configuration-isolation monitor: random option sequences in fresh child processes, full configuration snapshots (verif hook) of every client, the defaults and the Hello on the wire compared before/after",
+    "Each sequence constructs 2-8 clients with random subsets of all 36 options in a fresh process; after every construction the snapshot of a fresh default configuration, uacp.DefaultClientACK and the snapshots of all earlier clients must be unchanged, and at the end the Hello of a default client on the wire must equal the one of a fresh process.",
+    "snapshot hook renders functions/channels as set/unset; option arguments from a fixed generated pool", "3/C23")
+CHECKS["C34"] = ("exploration", "linearizability monitor: client-boundary call/return histories of concurrent Read/Write by several real clients checked with porcupine against a register-per-node model",
+    "2-8 real clients x 30-60 operations over 1-3 shared nodes (node and map namespaces) of the real server, unique written values, one monotonic clock; each history is checked by porcupine (partitioned per node); failed writes stay open to the end of the history; a checker timeout is inconclusive.",
+    "client and server share a process and clock; histories are short (<= 480 operations) so the checker terminates", "3/C34")
+
 NOT_YET = {}
 
 
